@@ -305,3 +305,88 @@ func MergeOKCount(h *vsched.H) {
 		h.Failf("C13/merge session leaves tasks behind after cancel: "+vsched.JoinSites(live), "live: %v", live)
 	}
 }
+
+// MergeTwoSessions: two client sessions on ONE merge handler submit the same event id (and the
+// same COUNT id) at the same time. Per-request state of the merge must be per session.
+// params: v0, v1 (static verdict modes 0..3 of the two children), k0, k1 (count indices), script
+// (0: both [EVENT x]; 1: both [COUNT c]; 2: A [EVENT x, COUNT c], B [COUNT c, EVENT x]).
+func MergeTwoSessions(h *vsched.H) {
+	var hs []mocrelay.Handler
+	var verdicts []Verdict
+	maxCount := uint64(0)
+	for i := 0; i < 2; i++ {
+		mode := h.Param(fmt.Sprintf("v%d", i), 0) % len(c09Verdicts)
+		k := c09Counts[h.Param(fmt.Sprintf("k%d", i), 0)]
+		if k > maxCount {
+			maxCount = k
+		}
+		verdicts = append(verdicts, c09Verdicts[mode])
+		hs = append(hs, &scriptedChild{h: h, mode: mode, verdict: c09Verdicts[mode], count: k, Replied: map[string][]int64{}})
+	}
+	merged := mocrelay.NewMergeHandler(hs...)
+	A := NewConn(h, "A", context.Background(), merged)
+	B := NewConn(h, "B", context.Background(), merged)
+	x := Ev('a', '1', 1, 10)
+	var sa, sb []mocrelay.ClientMsg
+	switch h.Param("script", 0) {
+	case 0:
+		sa, sb = []mocrelay.ClientMsg{EventMsg(x)}, []mocrelay.ClientMsg{EventMsg(x)}
+	case 1:
+		sa, sb = []mocrelay.ClientMsg{CountMsg("c")}, []mocrelay.ClientMsg{CountMsg("c")}
+	default:
+		sa, sb = []mocrelay.ClientMsg{EventMsg(x), CountMsg("c")}, []mocrelay.ClientMsg{CountMsg("c"), EventMsg(x)}
+	}
+	go A.ReadAll()
+	go B.ReadAll()
+	go A.Write(sa...)
+	go B.Write(sb...)
+	h.WaitQuiescent()
+	allAccept := verdicts[0].Accept && verdicts[1].Accept
+	detail := fmt.Sprintf("children's verdicts %+v; A sent [%s] got [%s]; B sent [%s] got [%s]", verdicts, A.SentString(), A.GotString(), B.SentString(), B.GotString())
+	for _, c := range []*Conn{A, B} {
+		wantOK, wantCount, gotOK, gotCount := 0, 0, 0, 0
+		for _, s := range c.Sent {
+			switch s.Msg.(type) {
+			case *mocrelay.ClientEventMsg:
+				wantOK++
+			case *mocrelay.ClientCountMsg:
+				wantCount++
+			}
+		}
+		for _, g := range c.Got {
+			switch m := g.Msg.(type) {
+			case *mocrelay.ServerOKMsg:
+				gotOK++
+				if m.EventID != x.ID {
+					h.Fail("C09/two sessions: OK for an event id the session did not submit", detail)
+				}
+				if m.Accepted != allAccept {
+					h.Fail(fmt.Sprintf("C09/two sessions: OK verdict accepted=%v but all-children-accepted=%v", m.Accepted, allAccept), detail)
+				}
+				if !m.Accepted {
+					ok := false
+					for _, v := range verdicts {
+						if !v.Accept && strings.HasPrefix(m.Message(), v.Prefix+v.Msg) {
+							ok = true
+						}
+					}
+					if !ok {
+						h.Fail("C09/two sessions: rejection text does not begin with a rejecting child's reason", detail)
+					}
+				}
+			case *mocrelay.ServerCountMsg:
+				gotCount++
+				if m.Count != maxCount {
+					h.Fail("C09/two sessions: COUNT is not the maximum of the children's counts", detail)
+				}
+			}
+		}
+		if gotOK != wantOK {
+			h.Fail(fmt.Sprintf("C09/two sessions on one merge handler: a session that submitted %d EVENT(s) got %d OK", wantOK, gotOK), detail)
+		}
+		if gotCount != wantCount {
+			h.Fail(fmt.Sprintf("C09/two sessions on one merge handler: a session that submitted %d COUNT(s) got %d COUNT replies", wantCount, gotCount), detail)
+		}
+	}
+	h.Observe(A.GotString() + " | " + B.GotString())
+}
